@@ -82,11 +82,12 @@ func c03MultiExhaustive(tier string) []any {
 	keys := []string{"ConfigMap/a", "ConfigMap/b", "ConfigMap/c", "ConfigMap/d"}
 	for _, p := range c03Prefixes() {
 		if tier == "thorough" {
-			for _, l := range []*eng.Op{up5, in5, rb, rb1} {
-				atomic := l.Kind != "rollback"
-				cleanup := l.Kind != "install"
-				out = append(out, c03Enumerate(p.Ops, l, keys, c03Hooks, flagCombos(atomic, cleanup))...)
-			}
+			// every fault position (4 keys x 4 verbs, 3 hooks x 2 watches, the wait in both branches) x the flag sets that matter here
+			out = append(out, c03Enumerate(p.Ops, up5, keys, c03Hooks,
+				[]eng.Flags{{}, {Atomic: true}, {Atomic: true, NoHooks: true}, {Cleanup: true}})...)
+			out = append(out, c03Enumerate(p.Ops, in5, keys, c03Hooks, []eng.Flags{{}, {Atomic: true}})...)
+			out = append(out, c03Enumerate(p.Ops, rb, keys, c03Hooks, []eng.Flags{{}, {Cleanup: true}})...)
+			out = append(out, c03Enumerate(p.Ops, rb1, keys, c03Hooks, []eng.Flags{{}, {NoHooks: true}})...)
 			continue
 		}
 		add := func(l *eng.Op, fl eng.Flags, pos ...func(*eng.Op)) {
